@@ -262,6 +262,7 @@ func vfStunWithUser(rng *rand.Rand, user *string) []byte {
 
 var vfMuxSrcPool = []string{ //nolint:gochecknoglobals
 	"1.2.3.4:5000", "1.2.3.4:5001", "9.9.9.9:5000", "[::ffff:1.2.3.4]:5000", "[2001:db8::1]:6000", "[2001:db8::2]:6000", "[fe80::1%eth0]:7000", "[::ffff:9.9.9.9]:5000",
+	"169.254.7.7:5000", "[::ffff:169.254.7.7]:5000", // IPv4 link-local, plain and as a dual-stack socket reports it
 }
 
 func vfUDPAddr(s string) *net.UDPAddr {
@@ -390,7 +391,7 @@ func vfC12Sequential(e *vfEnv, r *vfResult, idx int) { //nolint:cyclop,maintidx
 				if string(got[i].data) != string(want[i].data) {
 					viol("mux-altered-or-reordered", fmt.Sprintf("after %s: connection #%d datagram %d differs from what arrived (order or contents)", after, mc.id, i))
 					ok = false
-				} else if got[i].src == nil || canonicalAddrPort(got[i].src.AddrPort()) != canonicalAddrPort(want[i].src.AddrPort()) {
+				} else if got[i].src == nil || vfRefCanonAP(got[i].src.AddrPort()) != vfRefCanonAP(want[i].src.AddrPort()) {
 					viol("mux-wrong-source", fmt.Sprintf("after %s: connection #%d datagram %d carries source %v, true source %v", after, mc.id, i, got[i].src, want[i].src))
 					ok = false
 				}
@@ -482,7 +483,7 @@ func vfC12Sequential(e *vfEnv, r *vfResult, idx int) { //nolint:cyclop,maintidx
 				viol("mux-write-result", fmt.Sprintf("%s: n=%d err=%v, expected success=%v (handle closed=%v, connection removed/closed=%v)", desc, n, err, wantOK, h.closed, h.mc.dead))
 			}
 			if err == nil {
-				ca := canonicalAddrPort(netip.MustParseAddrPort(dst))
+				ca := vfRefCanonAP(netip.MustParseAddrPort(dst))
 				if !h.mc.dead {
 					model.addr[ca] = h.mc
 				}
@@ -494,7 +495,7 @@ func vfC12Sequential(e *vfEnv, r *vfResult, idx int) { //nolint:cyclop,maintidx
 			}
 		case k <= 10: // inbound
 			src := vfMuxSrcPool[rng.IntN(len(vfMuxSrcPool))]
-			ca := canonicalAddrPort(netip.MustParseAddrPort(src))
+			ca := vfRefCanonAP(netip.MustParseAddrPort(src))
 			var data []byte
 			kind := ""
 			var routeUfrag *string
@@ -515,7 +516,7 @@ func vfC12Sequential(e *vfEnv, r *vfResult, idx int) { //nolint:cyclop,maintidx
 				kind = "stun-undecodable"
 			default:
 				uf := ufrags[rng.IntN(len(ufrags))]
-				user := []string{uf + ":remote", uf, uf + ":", "zz" + uf + ":remote", "remote:" + uf}[rng.IntN(5)]
+				user := []string{uf + ":remote", uf, uf + ":", "zz" + uf + ":remote", "remote:" + uf, uf + ":re:mote", uf + "::x:"}[rng.IntN(7)] // the local ufrag ends at the FIRST colon
 				data, kind = vfStunWithUser(rng, &user), "stun-user="+user
 				ru := strings.Split(user, ":")[0]
 				routeUfrag = &ru
@@ -742,7 +743,7 @@ func vfC12Concurrent(e *vfEnv, r *vfResult, idx int) { //nolint:cyclop
 		}
 		ca, _ := netip.ParseAddrPort(src)
 		ga, _ := netip.ParseAddrPort(x.src)
-		if canonicalAddrPort(ca) != canonicalAddrPort(ga) {
+		if vfRefCanonAP(ca) != vfRefCanonAP(ga) {
 			r.violation("mux-concurrent-wrong-source", fmt.Sprintf("history %d: datagram fed from %s was delivered with source %s", idx, src, x.src), map[string]any{"idx": idx})
 		}
 	}
